@@ -85,6 +85,10 @@ class ActionSummary(object):
     # rolled back. It must use the pre-rename names, or it targets a name that no longer exists
     # and undo fails. Resolve them now, before root_name() rewrites table_id/col_id below.
     table_delta = self._tables[table_id]
+    # Likewise, what this summary knows about the table and column is keyed by the current names,
+    # which for removed ones are the defunct names.
+    delta_table_id = table_id
+    created = self.is_created(table_id, col_id)
     orig_table_id = self._table_renames.original_name(table_id)
     orig_col_id = table_delta.column_renames.original_name(col_id)
     table_id = root_name(table_id)
@@ -100,12 +104,13 @@ class ActionSummary(object):
       if row_ids_after:
         out_stored.append(update_action(row_ids_after, 1))
 
-    if self.is_created(table_id, col_id) and not defunct:
-      # A newly-created column, and not replacing a defunct one. Don't generate undo actions.
+    if created:
+      # A newly-created column (possibly removed again since): it has no earlier values to restore,
+      # so don't generate undo actions.
       return
 
     ## Maybe add one or two undo update actions for rows that existed before the change.
-    row_ids_before = self.filter_out_new_rows(table_id, full_row_ids)
+    row_ids_before = self.filter_out_new_rows(delta_table_id, full_row_ids)
 
     if defunct:
       preserved_row_ids = []
